@@ -10,6 +10,7 @@ ASSUMPTIONS = ["the OS frees a UDP port as soon as its socket is closed; foreign
 RULE = ("action sequences over {start, stop, occupy port i, release port i, send a valid broadcast to port i} on 2 configured ports: every "
         "sequence of length <= 3 (584) and random ones of length 4..9 (thorough: every sequence of length <= 4, and 3 ports), the "
         "state (is_running, who holds each port by a probe bind, delivered or not, start raised or not) observed after every action; "
+        "the same with stop() called on other bridge objects configured with the same ports, a port list ending in a number no socket can take, "
         "plus the async-context form and broadcasts still in flight when stop() is called (sent without waiting, 0..4 loop cycles earlier); non-trivial = distinct sequences containing a start")
 REQUIREMENT = ("after every action: is_running iff the bridge holds every configured port; not running => it holds none (also after a "
                "failed start, which raises); a broadcast is delivered iff the bridge holds that port; stop twice / before start is "
@@ -30,12 +31,22 @@ def can_bind(p):
     finally: s.close()
 
 
+def can_bind_shared(p):
+    """would a second listener asking for SO_REUSEPORT get the port?  Never while the bridge holds it: the bridge's ports are its own"""
+    s = socket.socket(socket.AF_INET, socket.SOCK_DGRAM)
+    try:
+        s.setsockopt(socket.SOL_SOCKET, socket.SO_REUSEPORT, 1); s.bind(("0.0.0.0", p)); return True
+    except OSError: return False
+    finally: s.close()
+
+
 async def settle():
     for _ in range(3): await asyncio.sleep(0)
 
 
 async def run_seq(ports, acts):
     got = []; b = SwitcherBridge(lambda d: got.append(d), list(ports)); foreign = {}
+    others = [SwitcherBridge(lambda d: None, list(ports)), SwitcherBridge(lambda d: None, list(ports))]    # same ports, never started
     tx = socket.socket(socket.AF_INET, socket.SOCK_DGRAM); out = ""; late = 0; stopped_at = None
     try:
         for k, i in acts:
@@ -60,6 +71,18 @@ async def run_seq(ports, acts):
                     except OSError: s.close()
             elif k == 3:
                 if p in foreign: foreign.pop(p).close()
+            elif k == 6:
+                await others[i % 2].stop()          # stopping another bridge object (same ports, never started) concerns that object only
+            elif k == 7:
+                # an unrelated bridge object fails to start (its only port is held by a foreign socket): that concerns that object only
+                xp = world.free_udp_ports(1)[0]; fs = socket.socket(socket.AF_INET, socket.SOCK_DGRAM); fs.bind(("0.0.0.0", xp))
+                x = SwitcherBridge(lambda d: None, [xp])
+                try: await x.start(); o = "?"
+                except OSError: pass
+                finally:
+                    fs.close()
+                    for t in list(x._transports.values()) if "_transports" in vars(x) else []:
+                        if t and not t.is_closing(): t.close()
             else:
                 n0 = len(got); tx.sendto(valid_datagram(), ("127.0.0.1", p))
                 for _ in range(25):
@@ -68,7 +91,7 @@ async def run_seq(ports, acts):
                 o = "d" if len(got) > n0 else "x"
             await settle()
             if stopped_at is not None and len(got) > stopped_at: late += len(got) - stopped_at; stopped_at = len(got)
-            held = "".join("F" if q in foreign else ("-" if can_bind(q) else "B") for q in ports)
+            held = "".join("F" if q in foreign else ("-" if can_bind(q) else "S" if can_bind_shared(q) else "B") for q in ports)
             out += ("R" if b.is_running else "r") + held + o + "|"
     finally:
         try: await b.stop()
@@ -89,6 +112,7 @@ def spec_judge(n_ports, text):
     for step in text.split("|")[:-1]:
         run, held, o = step[0] == "R", step[1:1 + n_ports], step[-1]
         if run and any(h != "B" for h in held): return "is_running is True but not every configured port is held (%s)" % step
+        if "S" in held: return "a port held by the bridge can be taken by a second listener (SO_REUSEPORT) (%s)" % step
         if not run and "B" in held: return "is_running is False but the bridge still holds a port (%s)" % step
         # a start that raises while the bridge is already running leaves the running bridge as it was (the model's reading)
     return "ok"
@@ -100,7 +124,16 @@ def run_sequences(out, stream, n_ports, seqs):
         for s in seqs: res.append(await run_seq(ports, s))
         return res
     io = asyncio.run(go())
-    mo = lib.run_model([lib.req("bridge", list(range(n_ports)), [[k, i] for k, i in s if k != 5]) for s in seqs])
+    mo = lib.run_model([lib.req("bridge", list(range(n_ports)), [[k, i] for k, i in s if k not in (5, 6, 7)]) for s in seqs])
+    for j, s_ in enumerate(seqs):           # the model has no step for "stop another object": it repeats the previous observation
+        if any(k in (6, 7) for k, _ in s_):
+            steps = mo[j].split("|")[:-1]; outl = []; it = iter(steps); prev = None
+            for k, i in s_:
+                if k == 5: continue
+                if k in (6, 7): outl.append((prev[:-1] + ".") if prev else "r" + "-" * n_ports + ".")
+                else: prev = next(it); outl.append(prev)
+                prev = outl[-1]
+            mo[j] = "".join(x + "|" for x in outl)
     # real sockets: a port can be taken by another process between two probes.  A sequence whose trace differs from the model's or
     # fails the Spec is run once more on fresh ports; only what reproduces is reported
     suspect = [k for k in range(len(seqs)) if io[k] != mo[k] or spec_judge(n_ports, io[k]) != "ok"]
@@ -114,7 +147,7 @@ def run_sequences(out, stream, n_ports, seqs):
             if t != io[k]:
                 out.notes.append("sequence %s gave %s, then %s on fresh ports: not reproducible, second run kept" % (seqs[k], io[k], t)); io[k] = t
     cases = [{"ports": n_ports, "acts": [list(a) for a in s]} for s in seqs]
-    names = ["start", "stop", "occupy", "release", "send", "send-without-waiting"]
+    names = ["start", "stop", "occupy", "release", "send", "send-without-waiting", "stop-another-bridge-object", "another-bridge-object-fails-to-start"]
     lib.differential(out, stream, cases, io, mo, ["ok"] * len(cases), lambda c: "%d ports: " % c["ports"] + ", ".join(names[k] + ("" if k < 2 else " %d" % i) for k, i in c["acts"]),
                      nontrivial=lambda c: any(k == 0 for k, _ in c["acts"]), sample=lambda c: c, classify=lambda c, i: "len%d" % len(c["acts"]),
                      impl_spec=[spec_judge(n_ports, t) for t in io])
@@ -135,6 +168,21 @@ async def context_form():
     return res
 
 
+async def bad_port_list():
+    """a configured port no socket can take (a typo such as 200003): start raises something, and nothing is left listening"""
+    res = []
+    for bad in (200003, -1):
+        ports = world.free_udp_ports(2); b = SwitcherBridge(lambda d: None, list(ports) + [bad]); raised = False
+        try: await b.start()
+        except Exception: raised = True
+        await settle()
+        res.append("start %s; running=%s; first ports free=%s" % ("raised" if raised else "returned", b.is_running, all(can_bind(p) for p in ports)))
+        for t in list(b._transports.values()):
+            if t and not t.is_closing(): t.close()
+        await settle()
+    return res
+
+
 def run(tier, rnd, out):
     alphabet = [(0, 0), (1, 0), (2, 0), (2, 1), (3, 0), (3, 1), (4, 0), (4, 1)]
     for c in lib.load_corpus("C17"): run_sequences(out, "corpus", c["ports"], [[tuple(a) for a in c["acts"]]])
@@ -149,6 +197,13 @@ def run(tier, rnd, out):
     seqs5 = [[(0, 0), f, (1, 0)] for f in ff] + [[(0, 0), f, g, (1, 0), (4, 0)] for f in ff for g in ff[::3]]
     seqs5 += [[rnd.choice(alphabet + ff) for _ in range(rnd.randrange(3, 9))] for _ in range(60 if tier == "quick" else 1500)]
     run_sequences(out, "broadcasts-in-flight-at-stop", 2, seqs5)
+    ob = [(6, 0), (6, 1), (7, 0)]
+    seqs6 = [[(0, 0), o, (4, 0)] for o in ob] + [[o, (0, 0), (4, 1), o, (4, 0), (1, 0)] for o in ob] + [[(0, 0), (1, 0), o, (0, 0), o, (4, 0), (4, 1)] for o in ob]
+    seqs6 += [[rnd.choice(alphabet + ob + ob) for _ in range(rnd.randrange(3, 9))] for _ in range(60 if tier == "quick" else 1500)]
+    run_sequences(out, "with-other-bridge-objects-on-the-same-ports", 2, seqs6)
+    got = asyncio.run(bad_port_list())
+    lib.differential(out, "port-list-with-an-impossible-port", [{"ports": "two free ports and 200003"}, {"ports": "two free ports and -1"}], got, None,
+                     ["start raised; running=False; first ports free=True"] * 2, lambda c: "start() on %s" % c["ports"])
     got = asyncio.run(context_form())
     want = ["inside=True after: running=False free=True"] * 2
     lib.differential(out, "async-context", [{"body_raises": False}, {"body_raises": True}], got, None, want, lambda c: "async with bridge, body raises=%s" % c["body_raises"])
